@@ -172,7 +172,7 @@ def rule_self_justifying(ctx):
     rets = []
     for b in g.blocks:
         for s in b["s"]:
-            if s["k"] == "assign" and s["p"]["l"] == 0 and s["r"]["k"] == "agg":
+            if s["k"] == "assign" and s["p"]["l"] in Q.ret_locals(g) and s["r"]["k"] == "agg":
                 rets.append(T.rvalue(s["r"]))
     exp = {"Commit": "high_commit_qc", "Timeout": "high_timeout_qc"}
     ok = len(rets) == 2
@@ -211,8 +211,8 @@ def rule_justification_choice(ctx):
         return 0
     atoms = [Atom("commit", "opt", is_c, ["None", "Some"]), Atom("timeout", "opt", is_t, ["None", "Some"]), Atom("cmp(commit.view,timeout.view)", "cmp", m, ["<", "=", ">"])]
     W = Walker(ctx, g, atoms)
-    rc = [bi for bi, b in enumerate(g.blocks) for s in b["s"] if s["k"] == "assign" and s["p"]["l"] == 0 and s["r"]["k"] == "agg" and s["r"].get("variant") == "Commit"]
-    rt = [bi for bi, b in enumerate(g.blocks) for s in b["s"] if s["k"] == "assign" and s["p"]["l"] == 0 and s["r"]["k"] == "agg" and s["r"].get("variant") == "Timeout"]
+    rc = [bi for bi, b in enumerate(g.blocks) for s in b["s"] if s["k"] == "assign" and s["p"]["l"] in Q.ret_locals(g) and s["r"]["k"] == "agg" and s["r"].get("variant") == "Commit"]
+    rt = [bi for bi, b in enumerate(g.blocks) for s in b["s"] if s["k"] == "assign" and s["p"]["l"] in Q.ret_locals(g) and s["r"]["k"] == "agg" and s["r"].get("variant") == "Timeout"]
     pan = [c["bb"] for c in T.calls() if c["q"] in ("std::panicking::panic", "std::panicking::panic_fmt")]
     names, tab = W.table({"Commit": rc, "Timeout": rt, "assert": pan})
     seen = set()
